@@ -35,6 +35,9 @@ def main(argv):
         if prop == "C20":
             import filechk
             return filechk.replay(prop, rp) if rp else filechk.check(prop, tier)
+        if prop in ("C11", "C12"):
+            import gossipchk
+            return gossipchk.replay(prop, rp) if rp else gossipchk.check(prop, tier)
         if prop == "C08":
             import locks
             return locks.replay(prop, rp) if rp else locks.check(prop, tier)
